@@ -316,10 +316,26 @@ func schedInit() {
 	schedMu.Lock()
 	defer schedMu.Unlock()
 	goids[goid()] = 0
+	schedFiles = map[string]bool{}
+	for _, st := range rf.Schedule {
+		schedFiles[siteFile(st.Site)] = true
+	}
 	schedOff = len(rf.Schedule) == 0
 	if os.Getenv("VERIF_NOSCHED") != "" {
 		schedOff = true
 	}
+}
+
+var schedFiles map[string]bool
+var pendingEarly = map[string]int{}
+
+func siteFile(site string) string {
+	for i := len(site) - 1; i >= 0; i-- {
+		if site[i] == ':' {
+			return site[:i]
+		}
+	}
+	return site
 }
 
 func NewThread() int {
@@ -359,8 +375,23 @@ func Sched(site string, n int) {
 	if !ok {
 		return // goroutine started by uninstrumented code
 	}
+	if !schedFiles[siteFile(site)] {
+		return // code the engine did not execute (e.g. a real logger where the encoding used a no-op): not controlled
+	}
 	deadline := time.Now().Add(3 * time.Second)
 	for !schedOff {
+		// operations announced early (the statement evaluates instrumented calls before its own operation) are
+		// consumed as soon as the schedule reaches them
+		for schedPos < len(rf.Schedule) {
+			h := rf.Schedule[schedPos]
+			k := h.Site + "#" + strconv.Itoa(h.Thread)
+			if pendingEarly[k] == 0 {
+				break
+			}
+			pendingEarly[k]--
+			schedPos++
+			schedCond.Broadcast()
+		}
 		if schedPos >= len(rf.Schedule) {
 			release("")
 			return
@@ -368,6 +399,13 @@ func Sched(site string, n int) {
 		head := rf.Schedule[schedPos]
 		if head.Thread == tid {
 			if head.Site != site {
+				// is this statement's operation still to come for this thread? then it was announced early
+				for j := schedPos + 1; j < len(rf.Schedule) && j < schedPos+400; j++ {
+					if rf.Schedule[j].Thread == tid && rf.Schedule[j].Site == site {
+						pendingEarly[site+"#"+strconv.Itoa(tid)] += n
+						return
+					}
+				}
 				release(fmt.Sprintf("thread %d is at %s but the schedule expects it at %s (step %d)", tid, site, head.Site, schedPos))
 				return
 			}
